@@ -86,11 +86,19 @@ class PoolCheck:
         def prop(data):
             fn(data)
 
+        from hypothesis import errors as herrors
         try:
             prop()
         except CaseFailure:
             sig, case, text = self.last_failure
             self.res.violation(sig, case, text)
+        except herrors.Flaky:
+            # a failure that did not repeat when Hypothesis re-ran the very same case (a driver killed by the environment,
+            # for instance): by definition not reproducible, so never a verdict; counted and reported as inconclusive
+            self.res.cls("nonreproducible_failure_discarded")
+            print("note: %s: a failing case did not reproduce on re-execution and was discarded (inconclusive): %s" % (
+                self.prop, (self.last_failure or ("?",))[0]))
+            self.last_failure = None
         return self.last_failure is None
 
     def finish(self):
